@@ -511,6 +511,9 @@ class MiniEval:
       else:
         args.append(self.ev(a, env, f, depth))
     kwargs = {k.arg: self.ev(k.value, env, f, depth) for k in e.keywords if k.arg is not None}
+    if isinstance(fn, ast.Name) and fn.id in self.opaque:
+      self.trace.append(("opaque", fn.id, tuple(args)))
+      return None
     # builtins
     if isinstance(fn, ast.Name) and fn.id not in env:
       b = fn.id
